@@ -77,9 +77,18 @@ func TestVerifC10SM2(t *testing.T) {
 				a, b, err := Sign(id.B, px.B, py.B, newScript(stream), priv.B, msg.B)
 				return fmt.Sprintf("%x,%x,%v", a, b, err)
 			}},
-			{"VerifyHashed", func() string { ok, err := VerifyHashed(px.B, py.B, e.B, rB.B, sB.B); return fmt.Sprintf("%v,%v", ok, err) }},
-			{"VerifyZa", func() string { ok, err := VerifyZa(px.B, py.B, za.B, msg.B, rI.B, sI.B); return fmt.Sprintf("%v,%v", ok, err) }},
-			{"Verify", func() string { ok, err := Verify(id.B, px.B, py.B, msg.B, rI.B, sI.B); return fmt.Sprintf("%v,%v", ok, err) }},
+			{"VerifyHashed", func() string {
+				ok, err := VerifyHashed(px.B, py.B, e.B, rB.B, sB.B)
+				return fmt.Sprintf("%v,%v", ok, err)
+			}},
+			{"VerifyZa", func() string {
+				ok, err := VerifyZa(px.B, py.B, za.B, msg.B, rI.B, sI.B)
+				return fmt.Sprintf("%v,%v", ok, err)
+			}},
+			{"Verify", func() string {
+				ok, err := Verify(id.B, px.B, py.B, msg.B, rI.B, sI.B)
+				return fmt.Sprintf("%v,%v", ok, err)
+			}},
 			{"Verify-forged", func() string { ok, _ := Verify(id.B, px.B, py.B, msg.B, sI.B, rI.B); return fmt.Sprintf("%v", ok) }},
 			{"ZA", func() string { z, err := ZA(id.B, px.B, py.B); return fmt.Sprintf("%x,%v", z, err) }},
 			{"DerivePublic", func() string { x, y, err := DerivePublic(priv.B); return fmt.Sprintf("%x,%x,%v", x, y, err) }},
@@ -161,10 +170,22 @@ func TestVerifC10SM2(t *testing.T) {
 			want string
 		}
 		calls := []call{
-			{"VerifyHashed", func() string { ok, _ := VerifyHashed(get("px"), get("py"), get("e"), get("r"), get("s")); return fmt.Sprint(ok) }, "true"},
-			{"Verify", func() string { ok, _ := Verify(get("id"), get("px"), get("py"), get("msg"), get("r"), get("s")); return fmt.Sprint(ok) }, "true"},
-			{"VerifyZa", func() string { ok, _ := VerifyZa(get("px"), get("py"), get("za"), get("msg"), get("r"), get("s")); return fmt.Sprint(ok) }, "true"},
-			{"SignHashed", func() string { a, b, _ := SignHashed(newScript(stream), get("priv"), get("e")); return hk.Hex(a) + hk.Hex(b) }, hk.Hex(ref.B32(m.R)) + hk.Hex(ref.B32(m.S))},
+			{"VerifyHashed", func() string {
+				ok, _ := VerifyHashed(get("px"), get("py"), get("e"), get("r"), get("s"))
+				return fmt.Sprint(ok)
+			}, "true"},
+			{"Verify", func() string {
+				ok, _ := Verify(get("id"), get("px"), get("py"), get("msg"), get("r"), get("s"))
+				return fmt.Sprint(ok)
+			}, "true"},
+			{"VerifyZa", func() string {
+				ok, _ := VerifyZa(get("px"), get("py"), get("za"), get("msg"), get("r"), get("s"))
+				return fmt.Sprint(ok)
+			}, "true"},
+			{"SignHashed", func() string {
+				a, b, _ := SignHashed(newScript(stream), get("priv"), get("e"))
+				return hk.Hex(a) + hk.Hex(b)
+			}, hk.Hex(ref.B32(m.R)) + hk.Hex(ref.B32(m.S))},
 			{"Sign", func() string {
 				a, b, _ := Sign(get("id"), get("px"), get("py"), newScript(stream), get("priv"), get("msg"))
 				return hk.Hex(a) + hk.Hex(b)
